@@ -538,6 +538,7 @@ func limitShapes(c *lp.Ctx) {
 // bigShapes (thorough): > 65535 nodes (layouts with 31-bit ids: 0.5.4+ and 0.5.10), an empty-key
 // root in a large trie.
 func bigShapes(c *lp.Ctx) {
+	u32ManyNodes(c)
 	if c.Quick() {
 		// a moderately large trie with an empty-key root in every layout family
 		ks := gen.ShortTable(c.Rng, 4, 12)
@@ -560,6 +561,49 @@ func bigShapes(c *lp.Ctx) {
 	}
 	for _, v := range []string{"nopref-0.5.10", "innpref-0.5.10", "allpref-0.5.11"} {
 		runVariantMode(c, goSideOnly, v, "big+emptykey", keys, 1, 0, 0)
+	}
+}
+
+// u32ManyNodes: the uint32-children layouts (0.5.0–0.5.3) address the first child with 16 bits: node
+// counts in the upper half of that range (32769..65536) exercise ids with bit 15 set.
+func u32ManyNodes(c *lp.Ctx) {
+	vr, _ := ParseVariant3("0.5.3")
+	m := map[string]struct{}{}
+	var keys []string
+	for target := 24000; target <= 60000; target += 4000 {
+		for len(m) < target {
+			b := make([]byte, 3+c.Rng.Intn(3))
+			for i := range b {
+				b[i] = byte('a' + c.Rng.Intn(16))
+			}
+			m[string(b)] = struct{}{}
+		}
+		ks := make([]string, 0, len(m))
+		for k := range m {
+			ks = append(ks, k)
+		}
+		sort.Strings(ks)
+		ok, nodes, _ := Encodable3(vr, ks)
+		if !ok {
+			break
+		}
+		keys = ks
+		if nodes > 40000 {
+			break
+		}
+	}
+	if _, nodes, _ := Encodable3(vr, keys); nodes <= 32768 {
+		c.Violate(lp.Violation{What: fmt.Sprintf("generator: no u32-children key set with more than 32768 nodes (%d)", nodes)})
+		return
+	}
+	c.Comment("section: uint32 children, 32769..65536 nodes")
+	mode := goSideOnly
+	if !c.Quick() {
+		mode = tieAndGo
+	}
+	for _, v := range []string{"0.5.0", "0.5.3"} {
+		c.Hit("shape:u32-children>32768-nodes")
+		runVariantMode(c, mode, v, "u32-many-nodes", keys, 1, 0, 0)
 	}
 }
 
